@@ -529,7 +529,23 @@ func explorePairs(p *an.Prog, f *an.Fn) *pairResult {
 		},
 	}
 	x := p.NewExplorer(f, hooks)
-	x.Run(nil)
+	// a deferred literal pops for the function that deferred it exactly what that function counted as deferred pops:
+	// its unconditional top-level releaseScope statements.  It starts with that many scopes to its credit.
+	credit := 0
+	if deferredInParent(f) && f.Lit != nil {
+		for _, s := range f.Lit.Body.List {
+			if es, isEs := s.(*ast.ExprStmt); isEs {
+				if call, isCall := es.X.(*ast.CallExpr); isCall && an.IsCallTo(info, call, releaseScopeFn) {
+					credit++
+				}
+			}
+		}
+	}
+	init := an.NewState()
+	if credit > 0 {
+		init.SetInt("depth", credit)
+	}
+	x.Run(init)
 	res.x = x
 	for _, ex := range x.Exits {
 		if ex.Kind != an.ExitReturn {
@@ -540,9 +556,6 @@ func explorePairs(p *an.Prog, f *an.Fn) *pairResult {
 			pos = ex.Ret.Pos()
 		}
 		bal := ex.State.Int("depth") - ex.State.Int("dpop")
-		if deferredInParent(f) {
-			continue // a deferred literal pops and restores for the function that deferred it, where it is accounted for
-		}
 		if bal != 0 && len(res.scopeBad) < 3 {
 			res.scopeBad = append(res.scopeBad, pairFinding{pos, fmt.Sprintf("a normal exit leaves the scope stack %+d relative to entry (pushes − pops − deferred pops)", bal), ex.Trail})
 		}
